@@ -16,6 +16,10 @@ PROP = {
         {"name": "shutdown", "pkg": "internal/home",
          "files": ["home/common_assembly_test.go", "home/c11_test.go", "home/c11_raw_test.go", "home/c11_shutdown_test.go"],
          "plain": ["TestVFC11Shutdown"]},
+        # the real first-run wizard call starts the DNS server: a process of its own
+        {"name": "install", "pkg": "internal/home",
+         "files": ["home/common_assembly_test.go", "home/c11_test.go", "home/c11_raw_test.go", "home/c11_shutdown_test.go", "home/c11_install_test.go"],
+         "plain": ["TestVFC11Install"]},
     ],
     "level": "exploration",
     "technique": "property-based testing (rapid) over (route x request shape x credential class x path spelling) against "
